@@ -1,5 +1,6 @@
 //@@ unit props=C13,C20,C06
 // Unit cfb: [MS-CFB] compound-file reader of src/cfb.rs (Cfb, Header, Sectors, Directory), verbatim text.
+#![feature(allocator_api)]
 #![allow(unused_imports, dead_code, unused_variables, unused_mut, unused_assignments)]
 use vstd::prelude::*;
 use vstd::std_specs::iter::IteratorSpec;
@@ -288,6 +289,108 @@ map_err(|e| -> (ce: CfbError) ensures ce is Io { CfbError::Io(e) })
 //@@ end
 //@@ endimpl
 
+// ---------------------------------------------------------------- header
+//@@ include common/bytes.rs
+//@@ item src/cfb.rs struct Header
+
+/// items an iterator will yield (used for `to_u32`'s opaque `impl ExactSizeIterator` and `Vec::extend`)
+pub uninterp spec fn iter_items<I: IntoIterator>(it: I) -> Seq<I::Item>;
+// TRUSTED: (A-std) `Vec::extend` appends the items of the iterator, in order
+pub assume_specification<T, A: std::alloc::Allocator, I: IntoIterator<Item = T>>[ <Vec<T, A> as Extend<T>>::extend ](v: &mut Vec<T, A>, it: I)
+    ensures final(v)@ == old(v)@ + iter_items(it);
+/// little-endian u32 words of a byte string whose length is a multiple of 4
+pub open spec fn le32_words(s: Seq<u8>) -> Seq<u32> { Seq::new(s.len() / 4, |i: int| le32(s.subrange(4 * i, 4 * i + 4)) as u32) }
+
+//@@ fn src/utils.rs to_u32 external_body ret=r
+//@@ sig
+    requires
+        s@.len() % 4 == 0,
+    ensures
+        iter_items(r) == le32_words(s@),
+//@@ end
+
+// [MS-CFB] 2.2 compound file header (first 512 bytes), field offsets from the specification
+pub open spec fn u16_at(h: Seq<u8>, off: int) -> int { le16(h.subrange(off, off + 2)) }
+pub open spec fn u32_at(h: Seq<u8>, off: int) -> int { le32(h.subrange(off, off + 4)) }
+/// header signature D0 CF 11 E0 A1 B1 1A E1 at offset 0
+pub open spec fn ole_signature() -> Seq<u8> { seq![0xD0u8, 0xCFu8, 0x11u8, 0xE0u8, 0xA1u8, 0xB1u8, 0x1Au8, 0xE1u8] }
+pub open spec fn hdr_signature_ok(h: Seq<u8>) -> bool { h.len() >= 8 && h.subrange(0, 8) == ole_signature() }
+pub open spec fn hdr_major_version(h: Seq<u8>) -> int { u16_at(h, 26) }
+pub open spec fn hdr_sector_shift(h: Seq<u8>) -> int { u16_at(h, 30) }
+pub open spec fn hdr_mini_sector_shift(h: Seq<u8>) -> int { u16_at(h, 32) }
+pub open spec fn hdr_num_dir_sectors(h: Seq<u8>) -> int { u32_at(h, 40) }
+pub open spec fn hdr_num_fat_sectors(h: Seq<u8>) -> int { u32_at(h, 44) }
+pub open spec fn hdr_first_dir_sector(h: Seq<u8>) -> int { u32_at(h, 48) }
+pub open spec fn hdr_first_mini_fat_sector(h: Seq<u8>) -> int { u32_at(h, 60) }
+pub open spec fn hdr_num_mini_fat_sectors(h: Seq<u8>) -> int { u32_at(h, 64) }
+pub open spec fn hdr_first_difat_sector(h: Seq<u8>) -> int { u32_at(h, 68) }
+pub open spec fn hdr_num_difat_sectors(h: Seq<u8>) -> int { u32_at(h, 72) }
+/// the 109 DIFAT entries stored in the header
+pub open spec fn hdr_difat(h: Seq<u8>) -> Seq<u32> { le32_words(h.subrange(76, 512)) }
+/// sector size selected by the sector shift: 9 -> 512 (version 3), 12 -> 4096 (version 4)
+pub open spec fn hdr_sector_size(h: Seq<u8>) -> int { if hdr_sector_shift(h) == 9 { 512 } else { 4096 } }
+/// header accepted: signature, sector shift 9 or 12, mini sector shift 6
+pub open spec fn hdr_valid(h: Seq<u8>) -> bool {
+    h.len() >= 512 && hdr_signature_ok(h) && (hdr_sector_shift(h) == 9 || hdr_sector_shift(h) == 12) && hdr_mini_sector_shift(h) == 6
+}
+
+proof fn lemma_signature(h: Seq<u8>)
+    requires h.len() >= 8,
+    ensures hdr_signature_ok(h) <==> le64(h.subrange(0, 8)) == 0xE11A_B1A1_E011_CFD0,
+{
+    let s = h.subrange(0, 8);
+    let t = s.subrange(4, 8);
+    assert(t[0] == s[4] && t[1] == s[5] && t[2] == s[6] && t[3] == s[7]);
+    if le64(s) == 0xE11A_B1A1_E011_CFD0 {
+        assert(s =~= ole_signature());
+    }
+}
+
+//@@ impl src/cfb.rs Header
+//@@ fn src/cfb.rs Header::from_reader props=C13 entry ret=res
+//@@ sig
+    ensures
+        //# C13,C20.header_invalid_rejected
+        !hdr_valid(old(f).rem()) ==> res is Err,
+        //# C13,C20.header_bad_signature_is_ole_error
+        old(f).rem().len() >= 512 && !hdr_signature_ok(old(f).rem()) ==> (match res { Err(e) => e is Ole || e is Io, Ok(_) => false }),
+        //# C13.header_fields
+        match res {
+            Ok((hd, difat)) => {
+                let h = old(f).rem();
+                &&& hdr_valid(h)
+                &&& hd.version as int == hdr_major_version(h)
+                &&& hd.sector_size as int == hdr_sector_size(h)
+                &&& hd.dir_len as int == hdr_num_dir_sectors(h)
+                &&& hd.fat_len as int == hdr_num_fat_sectors(h)
+                &&& hd.dir_start as int == hdr_first_dir_sector(h)
+                &&& hd.mini_fat_start as int == hdr_first_mini_fat_sector(h)
+                &&& hd.mini_fat_len as int == hdr_num_mini_fat_sectors(h)
+                &&& hd.difat_start as int == hdr_first_difat_sector(h)
+            },
+            Err(_) => true,
+        },
+        //# C13.header_difat_109
+        match res { Ok((hd, difat)) => difat@ == hdr_difat(old(f).rem()) && difat@.len() == 109, Err(_) => true },
+        //# C13.header_consumes_first_sector
+        match res {
+            Ok((hd, difat)) => old(f).rem().len() >= hdr_sector_size(old(f).rem()) && final(f).rem() == old(f).rem().skip(hdr_sector_size(old(f).rem())),
+            Err(_) => true,
+        },
+//@@ body
+        let ghost inp = f.rem();
+//@@ before /let mut difat = Vec::with_capacity/
+        //# C06.alloc_bound_difat_capacity
+        assert(alloc_le(difat_len as int, 109 + inp.len() as int)) by { reveal(alloc_le); }
+//@@ replace /\.map\(\|slice\| u64::from_le_bytes\(slice\.try_into\(\)\.unwrap\(\)\)\)/ from_le_bytes and try_into are outside vstd; utils::read_u64 is the same expression on s[..8] and its contract is discharged by Kani
+.map(|slice: &[u8]| -> (v: u64) requires slice@.len() >= 8 ensures v as int == le64(slice@) { read_u64(slice) })
+//@@ replace /map_err\(CfbError::Io\)/#0of2 Verus does not support a datatype constructor as a function value; eta-expanded
+map_err(|e| -> (ce: CfbError) ensures ce is Io { CfbError::Io(e) })
+//@@ replace /map_err\(CfbError::Io\)/#1of2 Verus does not support a datatype constructor as a function value; eta-expanded
+map_err(|e| -> (ce: CfbError) ensures ce is Io { CfbError::Io(e) })
+//@@ end
+//@@ endimpl
+
 // ---------------------------------------------------------------- directory and container
 //@@ item src/cfb.rs struct Directory
 //@@ item src/cfb.rs struct Cfb
@@ -295,10 +398,10 @@ map_err(|e| -> (ce: CfbError) ensures ce is Io { CfbError::Io(e) })
 /// abstract directory entry ([MS-CFB] 2.6.1): name, starting sector, stream size
 pub struct DirEnt { pub name: Seq<char>, pub start: u32, pub len: nat }
 
-pub open spec fn has_name(ds: Seq<DirEnt>, n: Seq<char>) -> bool { exists|i: int| 0 <= i < ds.len() && #[trigger] ds[i].name == n }
+pub open spec fn has_name(ds: Seq<DirEnt>, n: Seq<char>) -> bool { exists|i: int| 0 <= i < ds.len() && (#[trigger] ds[i]).name == n }
 /// entry `i` is the only entry called `n`
 pub open spec fn only_name(ds: Seq<DirEnt>, n: Seq<char>, i: int) -> bool {
-    0 <= i < ds.len() && ds[i].name == n && forall|j: int| 0 <= j < ds.len() && #[trigger] ds[j].name == n ==> j == i
+    0 <= i < ds.len() && ds[i].name == n && forall|j: int| 0 <= j < ds.len() && (#[trigger] ds[j]).name == n ==> j == i
 }
 
 impl Directory {
@@ -315,6 +418,12 @@ impl Cfb {
     pub closed spec fn space<R: Read>(&self, r: &R) -> Seq<u8> { self.sectors.total(r) }
     /// the mini stream ([MS-CFB] 2.4): 64-byte mini sectors
     pub closed spec fn mini_stream(&self) -> Seq<u8> { self.mini_sectors.loaded() }
+    proof fn lemma_dirs(&self)
+        ensures
+            self.dirs().len() == self.directories@.len(),
+            forall|i: int| 0 <= i < self.directories@.len() ==> (#[trigger] self.directories@[i]).ent() == self.dirs()[i],
+            forall|i: int| 0 <= i < self.directories@.len() ==> (#[trigger] self.dirs()[i]) == self.directories@[i].ent(),
+    {}
     pub closed spec fn wf(&self) -> bool { self.sectors.wf() && self.mini_sectors.wf() && self.mini_sectors.sz() == 64 && (self.sectors.sz() == 512 || self.sectors.sz() == 4096) }
 }
 
@@ -330,14 +439,14 @@ pub assume_specification<'a, T, P: FnMut(&<std::slice::Iter<'a, T> as Iterator>:
     ensures
         match r {
             Some(x) => exists|i: int| 0 <= i < iter_rem(old(it)).len() && x == iter_rem(old(it))[i] && call_ensures(pred, (&x,), true)
-                && forall|j: int| 0 <= j < i ==> call_ensures(pred, (&iter_rem(old(it))[j],), false),
-            None => forall|i: int| 0 <= i < iter_rem(old(it)).len() ==> call_ensures(pred, (&iter_rem(old(it))[i],), false),
+                && forall|j: int| #![auto] 0 <= j < i ==> call_ensures(pred, (&iter_rem(old(it))[j],), false),
+            None => forall|i: int| #![auto] 0 <= i < iter_rem(old(it)).len() ==> call_ensures(pred, (&iter_rem(old(it))[i],), false),
         };
 pub assume_specification<'a, T, P: FnMut(&'a T) -> bool>[ <std::slice::Iter<'a, T> as Iterator>::any::<P> ](it: &mut std::slice::Iter<'a, T>, pred: P) -> (r: bool)
     where std::slice::Iter<'a, T>: Sized
     ensures
-        r ==> exists|i: int| 0 <= i < iter_rem(old(it)).len() && call_ensures(pred, (iter_rem(old(it))[i],), true),
-        !r ==> forall|i: int| 0 <= i < iter_rem(old(it)).len() ==> call_ensures(pred, (iter_rem(old(it))[i],), false);
+        r ==> exists|i: int| #![auto] 0 <= i < iter_rem(old(it)).len() && call_ensures(pred, (iter_rem(old(it))[i],), true),
+        !r ==> forall|i: int| #![auto] 0 <= i < iter_rem(old(it)).len() ==> call_ensures(pred, (iter_rem(old(it))[i],), false);
 /// (proved) re-triggering of vstd's `slice.iter()` postcondition on the slice side
 pub broadcast proof fn lemma_iter_rev<T>(rem: Seq<&T>, ds: Seq<T>, i: int)
     requires rem.len() == ds.len(), forall|j: int| 0 <= j < rem.len() ==> *rem[j] == ds[j], 0 <= i < ds.len(),
@@ -374,11 +483,63 @@ proof fn lemma_prefix_space(a: Seq<u8>, b: Seq<u8>, size: int, ids: Seq<u32>)
         b == has_name(self.dirs(), name@),
 //@@ body
         broadcast use axiom_iter_rem, lemma_iter_rev;
-        proof { assert forall|i: int| 0 <= i < self.dirs().len() implies #[trigger] self.dirs()[i].name == self.directories@[i].name@ by {} }
+        proof { self.lemma_dirs(); }
 //@@ replace /\|d\| / closure parameter and result annotated so that its (verified) postcondition is visible to `any`; body unchanged
 |d: &Directory| -> (b: bool) ensures b == (d.name@ == name@) { 
 //@@ after /\|d\| [^)]*/
  }
+//@@ end
+//@@ fn src/cfb.rs Cfb::get_stream props=C13 entry ret=res
+//@@ sig
+    requires
+        old(self).wf(),
+    ensures
+        //# C13.get_stream_frame
+        final(self).dirs() == old(self).dirs() && final(self).fat() == old(self).fat() && final(self).mini_fat() == old(self).mini_fat()
+            && final(self).ssz() == old(self).ssz() && final(self).wf(),
+        //# C13.get_stream_frame_mini_stream
+        old(self).mini_stream().len() <= final(self).mini_stream().len()
+            && final(self).mini_stream().take(old(self).mini_stream().len() as int) == old(self).mini_stream(),
+        //# C13.stream_not_found
+        !has_name(old(self).dirs(), name@) ==> (match res { Err(CfbError::StreamNotFound(s)) => s@ == name@, _ => false }),
+        //# C13.mini_cutoff_mini_stream
+        forall|i: int, fuel: nat| only_name(old(self).dirs(), name@, i) && old(self).dirs()[i].len < 4096
+            && #[trigger] chain_ok(old(self).mini_stream(), 64, old(self).mini_fat(), old(self).dirs()[i].start, fuel) ==> (match res {
+                Ok(v) => v@ == stream_bytes(old(self).mini_stream(), 64, old(self).mini_fat(), old(self).dirs()[i].start, old(self).dirs()[i].len as int, fuel),
+                Err(e) => e is Io,
+            }),
+        //# C13.mini_cutoff_regular_sectors
+        forall|i: int, fuel: nat| only_name(old(self).dirs(), name@, i) && old(self).dirs()[i].len >= 4096
+            && #[trigger] chain_ok(old(self).space(old(r)), old(self).ssz(), old(self).fat(), old(self).dirs()[i].start, fuel) ==> (match res {
+                Ok(v) => v@ == stream_bytes(old(self).space(old(r)), old(self).ssz(), old(self).fat(), old(self).dirs()[i].start, old(self).dirs()[i].len as int, fuel)
+                    && final(self).space(final(r)) == old(self).space(old(r)),
+                Err(e) => e is Io,
+            }),
+//@@ body
+        broadcast use axiom_iter_rem, lemma_iter_rev;
+        proof { self.lemma_dirs(); }
+        let ghost ds = self.dirs();
+//@@ replace /\|d\| / closure parameter and result annotated so that its (verified) postcondition is visible to `find`; body unchanged
+|d: &&Directory| -> (b: bool) ensures b == (d.name@ == name@) { 
+//@@ after /\|d\| [^)]*/
+ }
+//@@ after /Some\(d\) => \{/
+                let ghost k = choose|k: int| 0 <= k < self.directories@.len() && self.directories@[k] == *d
+                    && forall|j: int| #![auto] 0 <= j < k ==> self.directories@[j].name@ != name@;
+                proof {
+                    assert(d.name@ == name@);
+                    assert(ds[k] == d.ent());
+                    assert forall|i: int| only_name(ds, name@, i) implies i == k by { assert(ds[k].name == name@); }
+                }
+//@@ before /self\.mini_sectors/
+                    proof {
+                        let ms = self.mini_sectors.loaded();
+                        assert forall|fuel: nat| #[trigger] chain_ok(ms, 64, self.mini_fats@, d.start, fuel)
+                            implies chain_ok(self.mini_sectors.total(r), 64, self.mini_fats@, d.start, fuel)
+                                && stream_bytes(self.mini_sectors.total(r), 64, self.mini_fats@, d.start, d.len as int, fuel) == stream_bytes(ms, 64, self.mini_fats@, d.start, d.len as int, fuel) by {
+                            lemma_prefix_space(ms, r.rem(), 64, fat_chain(self.mini_fats@, d.start, fuel).unwrap());
+                        }
+                    }
 //@@ end
 //@@ endimpl
 
